@@ -11,7 +11,8 @@ inside `cached`".
 
 The unchanged code does **not** satisfy the full statement: `C09_full_fails`.  Entry points whose
 atomicity rests on later checks being implied by earlier ones are `_partial` with the assumed checks
-listed explicitly; the check-after-write paths each have a machine-checked witness.
+listed explicitly; the check-after-write paths each have a machine-checked witness. (`Slash` used to be
+one of them — F-04a — and is atomic by shape since commit b01075b: `C09_slash_fail_atomic`.)
 -/
 namespace ExoVerif.Atomic
 
@@ -120,6 +121,13 @@ theorem C09_updateVotingPower_fail_atomic {σ : Type} (I : Impl σ) (s : σ)
     (blockHook (run I updateVotingPower) s).2 = s :=
   C09_blockHook_fail_atomic I _ s (by decide) h
 
+/-- Slash (called from BeginBlock through the dogfood slashing hooks, its error only logged): the asset
+cut and the slash-info checks share one cache context that is written last, so a refused slash —
+duplicate id, wrong slash contract, proportion > 1 — leaves nothing behind (F-04a, fixed by b01075b) -/
+theorem C09_slash_fail_atomic {σ : Type} (I : Impl σ) (s : σ)
+    (h : (blockHook (run I slash) s).1.isFailure = true) : (blockHook (run I slash) s).2 = s :=
+  C09_blockHook_fail_atomic I _ s (by decide) h
+
 /-- A failing item in per-item block processing leaves no partial effect and does not stop the
 others: the result is that of the list without the item. -/
 theorem C09_item_fail_isolated {σ : Type} (pre post : List (Eff σ Unit)) (bad : Eff σ Unit) (s : σ) (e : Err)
@@ -180,16 +188,6 @@ theorem C09_precompileOptOut_fail_atomic_partial {σ : Type} (I : Impl σ) (s : 
     (h : (run I precompileOptOut s).1 = .error e) : (run I precompileOptOut s).2 = s :=
   run_fail_atomic_assuming I optOutAssumed _ s hinf (by decide) e h
 
-/-- Slash: atomic only if UpdateOperatorSlashInfo's own checks cannot fail (F-04a says they can) -/
-def slashAssumed : List String :=
-  ["AccAddressFromBech32", "Has(slashInfoKey)", "GetAVSSlashContract", "SlashContract!=stored",
-   "EventHeight>SubmittedHeight", "SlashProportion range"]
-
-theorem C09_slash_fail_atomic_partial {σ : Type} (I : Impl σ) (s : σ)
-    (hinf : ∀ n, n ∈ slashAssumed → ∀ c, I.chk n s c = none) (e : Err)
-    (h : (run I slash s).1 = .error e) : (run I slash s).2 = s :=
-  run_fail_atomic_assuming I slashAssumed _ s hinf (by decide) e h
-
 /-- NST deposit/withdraw: atomic only if the oracle-side update cannot refuse -/
 def nstAssumed : List String := lstAssumed ++ ["getDecimal", "exists||amount.IsPositive"]
 
@@ -214,12 +212,24 @@ def counting (bad : List String) : Impl Nat where
   wr _ _ c := c + 1
   eff _ _ := fun c => (.ok (), c + 1)
 
-/-- F-04a: duplicate slash id detected after the assets were cut and committed -/
-theorem C09_slash_witness :
-    precompileCall (run (counting ["Has(slashInfoKey)"]) slash) 0 = (.failed "Has(slashInfoKey)", 1) ∧
-    blockHook (run (counting ["SlashContract!=stored"]) slash) 0 = (.failed "SlashContract!=stored", 1) ∧
-    blockHook (run (counting ["SlashProportion range"]) slash) 0 = (.failed "SlashProportion range", 1) := by
-  refine ⟨?_, ?_, ?_⟩ <;> decide
+/-- the order Slash had before commit b01075b (`writeFunc()` before UpdateOperatorSlashInfo): kept to
+show that the shape condition and the tie `C09_tie_slash_order` are what separates the two -/
+def slashPreFix : Prog :=
+  [.check "CheckSlashParameter", .openC, .call "SlashAssets", .closeC,
+   .check "AccAddressFromBech32", .check "Has(slashInfoKey)", .check "GetAVSSlashContract",
+   .check "SlashContract!=stored", .check "EventHeight>SubmittedHeight", .check "SlashProportion range",
+   .write "Set(slashInfo)"]
+
+/-- F-04a (fixed): with the old order a duplicate slash id was detected after the cut was committed;
+with the current order the same failing check leaves the entry state -/
+theorem C09_slash_regression_witness :
+    atomicShape slashPreFix = false ∧
+    blockHook (run (counting ["Has(slashInfoKey)"]) slashPreFix) 0 = (.failed "Has(slashInfoKey)", 1) ∧
+    blockHook (run (counting ["Has(slashInfoKey)"]) slash) 0 = (.failed "Has(slashInfoKey)", 0) ∧
+    blockHook (run (counting ["SlashContract!=stored"]) slash) 0 = (.failed "SlashContract!=stored", 0) ∧
+    blockHook (run (counting ["SlashProportion range"]) slash) 0 = (.failed "SlashProportion range", 0) ∧
+    blockHook (run (counting []) slash) 0 = (.ok, 2) := by
+  refine ⟨?_, ?_, ?_, ?_, ?_, ?_⟩ <;> decide
 
 /-- F-09a: NST deposit/withdraw booked (2 writes), then the validator-list update refuses -/
 theorem C09_nst_witness :
@@ -251,15 +261,15 @@ def C09_full : Prop :=
 
 theorem C09_full_fails : ¬ C09_full := by
   intro h
-  have h1 := h "operator.Slash" slash (by decide) (counting ["Has(slashInfoKey)"]) 0
-  rw [C09_slash_witness.1] at h1
+  have h1 := h "assets.registerToken" registerToken (by decide) (counting ["Decimals>MaxDecimal"]) 0
+  rw [C09_registerToken_witness] at h1
   exact absurd (h1 rfl) (by decide)
 
 /-- which registered entry points are atomic by shape alone — the rest carry `_partial` theorems -/
 theorem C09_shape_census :
     (entryPoints.filter (fun x => atomicShape x.2)).map (·.1) =
       ["assets.registerOrUpdateClientChain", "assets.updateToken", "reward.claimReward", "msg.delegate", "msg.undelegate",
-       "msg.optIn", "msg.optOut", "delegation.EndBlock.record", "operator.UpdateVotingPower"] := by decide
+       "msg.optIn", "msg.optOut", "operator.Slash", "delegation.EndBlock.record", "operator.UpdateVotingPower"] := by decide
 
 /-! ## non-vacuity -/
 
